@@ -190,7 +190,7 @@ class SqlImpl(TableImpl):
                 # names)
                 df.columns = [c.name for c in sel.selected_columns]
                 df.name = nd.name
-                return df
+                return df.lazy() if target.lazy else df
 
         raise NotImplementedError
 
